@@ -13,7 +13,7 @@ from typing import Dict, List, Optional, Set
 
 from ..model import Program, AnalysisError, FuncInfo, walk_local, dotted
 from ..cfg import CFG
-from ..report import RuleResult
+from ..report import RuleResult, guard
 from ..astutil import src, site, calls_in, call_name, is_self_attr
 from ..callgraph import closure
 from ..dtable import explore, Sym, App
@@ -547,6 +547,6 @@ def run(prog: Program, tier: str) -> List[RuleResult]:
     from .c01 import ep_quant, ep_thread
 
     # match_any compiles to the existential quantifier: one answer per binding of the free variables
-    return [match_table(prog), match_kind(prog), match_iter(prog), match_factory(prog), match_memo_order(prog), match_ops(prog), ident_dedup(prog), domain_cache(prog), ep_quant(prog),
+    return [guard(lambda: match_table(prog)), guard(lambda: match_kind(prog)), guard(lambda: match_iter(prog)), guard(lambda: match_factory(prog)), guard(lambda: match_memo_order(prog)), guard(lambda: match_ops(prog)), guard(lambda: ident_dedup(prog)), guard(lambda: domain_cache(prog)), guard(lambda: ep_quant(prog)),
             # selected inner parts are evaluated under the bindings of the matched element: the row threading of C01
-            ep_thread(prog), _hv_truth(prog), _carry1(prog)]
+            guard(lambda: ep_thread(prog)), guard(lambda: _hv_truth(prog)), guard(lambda: _carry1(prog))]
